@@ -1,5 +1,6 @@
 /-
-Model of `framework/address` (norm.go, split.go, rfc6531.go) and `framework/dns/norm.go`.
+Model of `framework/address` (norm.go, split.go, rfc6531.go, validation.go) and `framework/dns`
+(norm.go, idna.go).
 
 Strings are lists of Unicode code points (Go's `for _, ch := range s`).  The Unicode
 primitives the code delegates to (x/text NFC, strings.ToLower, x/net/idna Punycode profile)
@@ -198,5 +199,53 @@ def cleanDomain (P : Prims) (a : Str) : Str × Bool :=
     if !ok then (a, false)
     else if d.isEmpty then (m, true)
     else (m ++ AT :: P.lower (P.nfc u), true)
+
+/-! ### validation.go: `Valid`, `ValidMailboxName`, `ValidDomain` -/
+
+/-- bytes of the UTF-8 encoding of one code point (Go's `len(s)` counts bytes) -/
+def utf8Len (c : Nat) : Nat :=
+  if c < 0x80 then 1 else if c < 0x800 then 2 else if c < 0x10000 then 3 else 4
+
+/-- `len(s)` -/
+def byteLen (s : Str) : Nat := s.foldl (fun n c => n + utf8Len c) 0
+
+/-- the `validGraphic` map: the 20 ASCII graphic characters allowed in an unquoted local part -/
+def validGraphic (c : Nat) : Bool :=
+  c == 33 || c == 35 || c == 36 || c == 37 || c == 38 || c == 39 || c == 42 || c == 43 ||
+  c == 45 || c == 47 || c == 61 || c == 63 || c == 94 || c == 95 || c == 96 || c == 123 ||
+  c == 124 || c == 125 || c == 126 || c == DOT
+
+def validMboxChar (c : Nat) : Bool :=
+  validGraphic c || (48 ≤ c && c ≤ 57) || (65 ≤ c && c ≤ 90) || (97 ≤ c && c ≤ 122) || c > 127
+
+/-- `address.ValidMailboxName`. -/
+def validMailboxName (m : Str) : Bool :=
+  if m.head? == some DQ then
+    match unquoteMbox m with
+    | .error _ => false
+    | .ok raw => raw.all (fun ch => !(ch < 32 || ch == 127))
+  else m.all validMboxChar
+
+/-- `strings.Contains(s, "..")` -/
+def hasDotDot : Str → Bool
+  | a :: b :: r => (a == DOT && b == DOT) || hasDotDot (b :: r)
+  | _ => false
+
+/-- `address.ValidDomain` (after the fix: a domain `dns.ToUnicode` rejects is not valid). -/
+def validDomain (P : Prims) (d : Str) : Bool :=
+  if byteLen d > 255 || d.isEmpty then false
+  else if d.head? == some DOT then false
+  else if hasDotDot d then false
+  else if !(dnsToUnicode P d).2 then false
+  else
+    let (ad, ok) := P.toASCII d
+    if !ok then false else (splitDots ad).all (fun l => byteLen l ≤ 64)
+
+/-- `address.Valid`. -/
+def valid (P : Prims) (a : Str) : Bool :=
+  if byteLen a > 320 then false else
+  match split a with
+  | .error _ => false
+  | .ok (m, d) => if d.isEmpty then true else validMailboxName m && validDomain P d
 
 end MaddyVerif.Address
